@@ -28,7 +28,8 @@ Inductive op :=
   | ODelCol (t : nat) (name : string)
   | ORename (t : nat) (old new : string) (new_is_identifier : bool)
   | OConcat (t t2 : nat)
-  | OSetSorted (t : nat) (b : bool).
+  | OSetSorted (t : nat) (b : bool)
+  | OSetColFromSlice (t : nat) (name name2 : string) (l : list Z).   (* dm[name] = dm[name2][[i, j, ...]] *)
 
 Inductive outcome := OkNew | OkUnit | Err (e : exn) | OutOfModel.
 
@@ -382,6 +383,29 @@ Definition step (w : world) (o : op) : world * outcome :=
       | Some t => (put w ti {| fam := fam t; ids := ids t; names := names t; slots := slots t;
                                tsorted := b; dflt := dflt t |}, OkUnit)
       | None => (w, OutOfModel)
+      end
+  | OSetColFromSlice ti name name2 l =>
+      (* a column sliced by an index list still belongs to its DataMatrix; assigned to a name of that DataMatrix it
+         becomes a NEW column (never an alias) holding the addressed cells position by position -- whether it is
+         inserted as it is (all rows, original order) or copied (any other order) -- and a slice of another length
+         is refused *)
+      match get w ti with
+      | None => (w, OutOfModel)
+      | Some t =>
+          match slot_of t name2 with
+          | None => (w, Err AttributeError)
+          | Some s =>
+              match all_some (map (norm_index (nrows t)) l) with
+              | None => (w, Err IndexError)
+              | Some ps =>
+                  if negb (Nat.eqb (List.length ps) (nrows t)) then (w, Err ValueError)
+                  else match take_pos ps (scells s) with
+                       | None => (w, OutOfModel)
+                       | Some cs => let '(t1, i) := add_slot t {| skind := skind s; scells := cs |} in
+                                    (put w ti (bind_name t1 name i), OkUnit)
+                       end
+              end
+          end
       end
   end.
 
